@@ -169,7 +169,7 @@ func (l *Loader) Load(path string) (*Pkg, error) {
 	var errs []string
 	conf := types.Config{
 		Importer: l,
-		Error: func(err error) { errs = append(errs, err.Error()) },
+		Error:    func(err error) { errs = append(errs, err.Error()) },
 	}
 	// which imports of this package are faked?
 	for _, f := range p.Files {
